@@ -270,6 +270,9 @@ class VLoop(asyncio.SelectorEventLoop):
             when = self._scheduled[0]._when
             if when > self._vt:
                 self._vt = when
+        # the base loop runs the timers due before `time() + _clock_resolution`: far into virtual time (weeks) a nanosecond is
+        # below the spacing of floats, the sum would round back to `time()` and a timer that is due would never run
+        self._clock_resolution = max(1e-9, self._vt * 2.0 ** -50)
         super()._run_once()
 
 
@@ -445,8 +448,11 @@ class AsyncioIO(ClientIO):
 
 def run_asyncio(cfg: dict, alpn: Optional[str], client: Callable[[ClientIO], Awaitable[None]], scripts: List[list],
                 tail: float = 120.0, terminate_at: Optional[float] = None,
-                wrap: Optional[Callable[[Rec, str], Any]] = None) -> dict:
+                wrap: Optional[Callable[[Rec, str], Any]] = None,
+                preload: Optional[Callable[[ClientIO], Awaitable[None]]] = None) -> dict:
     # `wrap(rec, worker)` builds the application wrapper served instead of ASGIWrapper(make_app(scripts)) — e.g. a WSGIWrapper
+    # `preload(io)`: what the client has already sent when the server accepts the connection (it sits in the socket buffer
+    # before `TCPServer.run()` starts: the server's first read returns it without waiting)
     from hypercorn.app_wrappers import ASGIWrapper
     from hypercorn.asyncio.tcp_server import TCPServer
     from hypercorn.asyncio.worker_context import WorkerContext
@@ -463,6 +469,8 @@ def run_asyncio(cfg: dict, alpn: Optional[str], client: Callable[[ClientIO], Awa
         ctx = WorkerContext(None)
         served = wrap(rec, "asyncio") if wrap is not None else ASGIWrapper(make_app(scripts, rec, asyncio.sleep))
         res["worker_state"] = {"boot": "L"}
+        if preload is not None:
+            await preload(io)
         srv = TCPServer(served, loop, config, ctx, res["worker_state"], io.reader, io.writer)
         task = loop.create_task(srv.run())
         done_at: List[int] = []
@@ -524,8 +532,10 @@ def _finish(res: dict, rec: Rec, loop_errors: List[str], turns: int) -> dict:
 # --------------------------------------------------------------------------------------------------------------
 def run_trio(cfg: dict, alpn: Optional[str], client: Callable[[ClientIO], Awaitable[None]], scripts: List[list],
              tail: float = 120.0, terminate_at: Optional[float] = None,
-             wrap: Optional[Callable[[Rec, str], Any]] = None) -> dict:
+             wrap: Optional[Callable[[Rec, str], Any]] = None,
+             preload: Optional[Callable[[ClientIO], Awaitable[None]]] = None) -> dict:
     # `wrap(rec, worker)` builds the application wrapper served instead of ASGIWrapper(make_app(scripts)) — e.g. a WSGIWrapper
+    # `preload(io)`: what the client has already sent when the server accepts the connection (see run_asyncio)
     import trio
     import trio.testing
     from hypercorn.app_wrappers import ASGIWrapper
@@ -648,6 +658,7 @@ def run_trio(cfg: dict, alpn: Optional[str], client: Callable[[ClientIO], Awaita
 
         async def receive_some(self, n: int) -> bytes:
             if self.closed:
+                rec.label("srvReadClosed")        # the reader finds the stream the server has closed itself
                 raise trio.ClosedResourceError()
             # like a socket stream's receive_some(max_bytes): at most n bytes of what has arrived, the rest stays for the next call
             pend = getattr(self, "_pend", b"")
@@ -658,6 +669,7 @@ def run_trio(cfg: dict, alpn: Optional[str], client: Callable[[ClientIO], Awaita
             try:
                 item = await io.recv_ch.receive()
             except (trio.ClosedResourceError, trio.EndOfChannel):
+                rec.label("srvReadClosed")
                 raise trio.ClosedResourceError()
             if isinstance(item, BaseException):
                 rec.label("srvRead", "reset")
@@ -716,6 +728,8 @@ def run_trio(cfg: dict, alpn: Optional[str], client: Callable[[ClientIO], Awaita
         ctx = WorkerContext(None)
         served = wrap(rec, "trio") if wrap is not None else ASGIWrapper(make_app(scripts, rec, trio.sleep))
         res["worker_state"] = {"boot": "L"}
+        if preload is not None:
+            await preload(io)
         srv = TCPServer(served, config, ctx, res["worker_state"], stream)
         done_at: List[int] = []
         err: List[Any] = []
